@@ -129,11 +129,12 @@ Print Assumptions C03_chain_partial.
    document the previous one left) that completes, each operation under its
    guard (hist_ok, computable along the model's own run: the invariants wf_attr /
    wf_doc hold where the operation starts, C03_set_exact's hypotheses for every
-   change, C04's guard for a delete), the model's run REFINES the plain-data
+   change, every coordinate of a delete locates a node), the model's run REFINES the plain-data
    model over Doc.erase: Set = replacements at locations (dsubst), Delete = a
    removal at locations (dprune), Create = children appended (dembeds) followed by
-   a replacement at the yielded location.  Guards exclude the known findings F24,
-   F15 and [name()] renames (hence _partial). *)
+   a replacement at the yielded location.  Guards exclude the known finding F24
+   and [name()] renames (hence _partial); a Delete step is no longer restricted
+   (C04 F15 repaired by fix 17f9ea8: C04_delete_exact is full). *)
 Theorem C03_history_partial : forall lit fl ops d k d',
   hist_ok lit fl ops d = true -> run_ops lit fl ops d k = HDone d' ->
   psteps (abs_ops lit fl ops d) (erase d) (erase d').
